@@ -14,6 +14,7 @@ from pySDC.core.hooks import Hooks, Entry
 from pySDC.helpers.stats_helper import filter_stats, sort_stats, get_sorted, get_list_of_types
 
 PID = 'C14'
+BOUNDS = {'quick': dict(filter_entries=3, restart_generations='0..1', histories='as C09 quick', patterns='as C07 quick'), 'thorough': dict(filter_entries=4, restart_generations='0..2', histories='as C09 thorough')}
 C14_CTRL_CLAUSES = ('stats-count', 'niter-record', 'exception')
 TYPES = ['niter', 'u', '_recomputed']
 
